@@ -7,10 +7,12 @@ def jobs(tier):
     out = [Job('bucket-index', 'dht.cpp', 'h_c07_bucket_index', [0], reach=['indexed', 'self'], bounds='all pairs of 256-bit ids', timeout=1500),
            Job('closest-n2-same', 'dht.cpp', 'h_c07_closest', [2, 1], reach=['answered', 'empty'], bounds='2 contacts in one bucket', timeout=1500),
            Job('closest-n2-diff', 'dht.cpp', 'h_c07_closest', [2, 0], reach=['answered', 'empty'], bounds='2 contacts in two buckets', timeout=1500),
+           Job('closest-n2-low', 'dht.cpp', 'h_c07_closest', [2, 2], reach=['answered', 'empty'], bounds='2 contacts in the two buckets below the top one', timeout=1500),
            Job('shape-k2', 'dht.cpp', 'h_c07_shape', [2], reach=['shape-checked'], bounds='2 registrations', timeout=1500),
            Job('overflow', 'dht.cpp', 'h_c07_overflow', [0], reach=['overflowed'], bounds='17 contacts in bucket 255', timeout=1500)]
     if tier == 'thorough':
         out += [Job('closest-n3-same', 'dht.cpp', 'h_c07_closest', [3, 1], reach=['answered', 'empty'], bounds='3 contacts in one bucket', timeout=3300),
                 Job('closest-n3-diff', 'dht.cpp', 'h_c07_closest', [3, 0], reach=['answered', 'empty'], bounds='3 contacts in three buckets', timeout=3300),
+                Job('closest-n3-low', 'dht.cpp', 'h_c07_closest', [3, 2], reach=['answered', 'empty'], bounds='3 contacts in the three buckets below the top one', timeout=3300),
                 Job('shape-k3', 'dht.cpp', 'h_c07_shape', [3], reach=['shape-checked'], bounds='3 registrations', timeout=3300)]
     return out
